@@ -1332,8 +1332,10 @@ func (p *scionPacketProcessor) validateTransitUnderlaySrc() disposition {
 	ingressLink := p.d.interfaces[pktIngressID] // Our own link to *that* sibling router
 
 	// Is that the link that the packet came through (e.g. not the internal link)? The
-	// comparison should be cheap. Links are implemented by pointers.
-	if ingressLink != p.pkt.Link {
+	// comparison should be cheap. Links are implemented by pointers. The link must be a sibling
+	// link: a hop field naming interface 0 as its ingress maps to the internal link itself, which
+	// is where packets from end hosts arrive.
+	if ingressLink != p.pkt.Link || ingressLink.Scope() != Sibling {
 		// Drop
 		return errorDiscard("error", errInvalidSrcAddrForTransit)
 	}
